@@ -56,6 +56,39 @@ def build_driver():
     open(stamp, "w").write(hv)
     return True, "driver rebuilt"
 
+LASTGOOD = os.path.join(ROOT, "tools", "Generated.lastgood.v")
+REFDRIVER = os.path.join(WORK, "refmodel", "ocaml", "driver")
+
+def generated_changed():
+    """True when the tables / constants regenerated from /repo differ from the committed last-good copy"""
+    try:
+        return open(os.path.join(COQ, "gen", "Generated.v")).read() != open(LASTGOOD).read()
+    except OSError:
+        return True
+
+def build_reference_driver():
+    """model built from the last-good Generated.v: the oracle to search for a concrete failing input
+    when the source's declarative data changed (so that the regenerated model just follows the source)"""
+    import shutil
+    ref = os.path.join(WORK, "refmodel")
+    shutil.rmtree(ref, ignore_errors=True)
+    os.makedirs(os.path.join(ref, "coq"), exist_ok=True)
+    for d in ("Model", "gen"):
+        shutil.copytree(os.path.join(COQ, d), os.path.join(ref, "coq", d), ignore=shutil.ignore_patterns("*.vo*", "*.glob", ".*.aux"))
+    shutil.copy(LASTGOOD, os.path.join(ref, "coq", "gen", "Generated.v"))
+    shutil.copy(os.path.join(COQ, "Extract.v"), os.path.join(ref, "coq", "Extract.v"))
+    files = ["gen/Generated.v"] + ["Model/%s.v" % m for m in
+             ("Prelude", "Cbor", "Iana", "Label", "Msg", "Key", "Cwt", "Context", "Api", "Builders", "Desc", "Dispatch")]
+    open(os.path.join(ref, "coq", "_CoqProject"), "w").write("-Q . Coset\n" + "\n".join(files) + "\n")
+    rc, out = sh("coq_makefile -f _CoqProject -o Makefile && make -j%d" % NCPU, cwd=os.path.join(ref, "coq"), timeout=1200)
+    if rc != 0:
+        return False, out
+    os.makedirs(os.path.join(ref, "ocaml"), exist_ok=True)
+    for f in ("driver.ml", "build.sh"):
+        shutil.copy(os.path.join(ROOT, "ocaml", f), os.path.join(ref, "ocaml", f))
+    rc, out = sh(["sh", os.path.join(ref, "ocaml", "build.sh")], timeout=900)
+    return rc == 0, out
+
 def build_harness(debug=False):
     """cargo rebuilds the harness (and coset, path dependency) from /repo's working tree"""
     lock = os.path.join(ROOT, "harness", "Cargo.lock")
@@ -110,8 +143,8 @@ def run_impl(lines, threaded=False, debug=False, **kw):
     env = {"HARNESS_THREAD": "1"} if threaded else {}
     return run_cases(HARNESS_DEBUG if debug else HARNESS, lines, env=env, **kw)
 
-def run_model(lines, **kw):
-    return run_cases(DRIVER, lines, per_case_timeout=0.5, **kw)
+def run_model(lines, reference=False, **kw):
+    return run_cases(REFDRIVER if reference else DRIVER, lines, per_case_timeout=0.5, **kw)
 
 ERR_RE = re.compile(r"err:\w+")
 def norm_err(s):
